@@ -16,8 +16,16 @@ pub fn render_part(streams: &[J], with_fn: bool) -> String {
     if with_fn && streams.iter().any(|st| st["proc"].as_bool().unwrap()) {
         s.push_str("fn expand():\n    emit Lo(x: x)\n    emit Hi(x: x + 10)\n\n");
     }
+    if streams.iter().any(|st| st["name"] == "N") {
+        s.push_str("fn pos(v: int) -> bool:\n    return v > 0\n\n");
+    }
     for st in streams {
         let name = st["name"].as_str().unwrap();
+        if name == "N" {
+            // the filter sits on the merge branches and calls a user-defined function
+            s.push_str("stream N = merge(\n        stream NA = A .where(pos(x)),\n        stream NB = B .where(pos(x))\n    )\n    .emit(x: x)\n\n");
+            continue;
+        }
         let mut srcs: Vec<&str> = st["srcs"].as_array().unwrap().iter().map(|x| x.as_str().unwrap()).collect();
         srcs.sort_by_key(|x| if *x == "A" || *x == "B" { 1 } else { 0 });
         let src = if srcs.len() == 1 { srcs[0].to_string() } else { format!("merge({})", srcs.join(", ")) };
